@@ -415,6 +415,28 @@ func caseSignature(fd *eng.FuncDecl, selfNames map[string]bool, spliceable map[s
 		if id == nil || ast.IsExported(id.Name) || selfNames[id.Name] || !spliceable[id.Name] {
 			return nil
 		}
+		// a local closure (emit := func(...) {...}) is a block extracted in place
+		if v, ok := info.Uses[id].(*types.Var); ok && v.Parent() != nil && v.Parent() != fd.Pkg.Types.Scope() {
+			var lit *ast.FuncLit
+			ast.Inspect(fd.Decl.Body, func(n ast.Node) bool {
+				as, ok := n.(*ast.AssignStmt)
+				if !ok || len(as.Lhs) != len(as.Rhs) {
+					return true
+				}
+				for i, l := range as.Lhs {
+					if lid, ok := l.(*ast.Ident); ok && (info.Defs[lid] == types.Object(v) || info.Uses[lid] == types.Object(v)) {
+						if fl, ok := as.Rhs[i].(*ast.FuncLit); ok {
+							lit = fl
+						}
+					}
+				}
+				return true
+			})
+			if lit != nil {
+				return lit.Body
+			}
+			return nil
+		}
 		fobj, ok := info.Uses[id].(*types.Func)
 		if !ok || fobj.Pkg() != fd.Pkg.Types {
 			return nil
